@@ -23,7 +23,7 @@ let kindset (l : Sexp.t list) : tok -> bool =
   fun t -> List.mem t.tkind ks
 
 let scanner_of_string = function
-  | "plain" -> Plain | "counting" -> Counting O | "modal" -> Modal false | s -> failwith ("scanner " ^ s)
+  | "plain" | "literal" | "matching" -> Plain | "counting" -> Counting O | "modal" -> Modal false | s -> failwith ("scanner " ^ s)
 
 let obs (lx : clexer) : string =
   Printf.sprintf "(ts %s) (ps %s) (cur %s) (pk %s) (emp %s) (flt %s)"
